@@ -3,6 +3,7 @@ package main
 import (
 	"fmt"
 	"go/types"
+	"strings"
 
 	"golang.org/x/tools/go/ssa"
 )
@@ -306,6 +307,7 @@ func init() {
 		r := s.uf("fmtuint", SInt, args[0].T0(), args[1].T0())
 		s.assume(Gt(r, I(0)))
 		s.assume(Eq(s.uf("parseuint", SInt, r, args[1].T0()), args[0].T0()))
+		s.assume(s.uf("parseuint_ok", SBool, r, args[1].T0()))
 		return scalar(types.Typ[types.String], r)
 	}
 	builtinModels["strconv.ParseUint"] = func(s *Session, fr *Frame, fn *ssa.Function, args []Val, st *State) Val {
@@ -336,5 +338,15 @@ func (s *Session) unixNano(t Val) T {
 // lockOp: Lock/Unlock are no-ops on the modelled state unless a lock discipline is declared
 // for the lock's field (guarded_by), in which case guarded fields are havocked at acquisition.
 func (s *Session) lockOp(fr *Frame, name string, args []Val, st *State) Val {
+	// static lockset (used by `interfere ... unless held L`): the lock is identified by the heap path of its field
+	if len(args) == 1 && args[0].Loc != nil {
+		id := args[0].Loc.Kind + ":" + args[0].Loc.TypeKey + ":" + args[0].Loc.Path
+		switch {
+		case strings.HasSuffix(name, ".Lock") || strings.HasSuffix(name, ".RLock"):
+			st.Locks[id] = true
+		case strings.HasSuffix(name, ".Unlock") || strings.HasSuffix(name, ".RUnlock"):
+			delete(st.Locks, id)
+		}
+	}
 	return Val{}
 }
